@@ -44,3 +44,36 @@ PROPS["C06"] = {
     "assumptions": ["paths through regex::Regex::new are cut (assume(false)); alloc::fmt::format returns an empty String"],
     "tiers": tiers("c06", qbounds="no loops in the kernels (unwind 3 only bounds drop/clone glue); all 2^8..2^64 source values x 10 target types per harness"),
 }
+
+STD_CUTS = ["paths through regex::Regex::new are cut (assume(false))", "alloc::fmt::format returns an empty String",
+            "HashMap RandomState uses fixed keys", "chrono::Utc::now returns a fixed instant (2020-09-13T12:26:40Z)"]
+
+PROPS["C22"] = {
+    "module": "c22_keepalive",
+    "level": MC,
+    "technique": "Kani/CBMC: one-step induction on Subscription::update_state from an arbitrary invariant-satisfying state (all u32 counter values), plus concrete-prefix harnesses from Subscription::new",
+    "kernels": ["opcua::server::subscriptions::subscription::Subscription::update_state", "start_publishing_timer", "reset_keep_alive_counter", "reset_lifetime_counter", "Subscription::new"],
+    "explanation": "State = (state, lifetime_counter, keep_alive_counter, max counters, first_message_sent, publishing_enabled) set on a real "
+                   "Subscription through hooks; all counters fully symbolic u32. Obligations, each one update_state step from an arbitrary state satisfying "
+                   "I (1<=ka<=maxka, 1<=lt<=maxlt, maxlt>=3*maxka>=3): (1) I preserved or Closed+Expired, expiry only from lt==1, no underflow; (2) KeepAlive state, "
+                   "publishing enabled, request queued, no notifications: keep-alive returned with counter reset iff ka==1, else ka strictly decreases (ranking: a keep-alive "
+                   "at least every maxka expiries); (2') healthy-client invariant J (KeepAlive && lt>=ka+1) is preserved and nothing expires under J; (3) from Subscription::new: "
+                   "created, keep-alive at the first interval, KeepAlive entered with J; (4) with no request queued each expiry decrements lt by exactly 1 and expiry happens exactly at lt==1.",
+    "outside": "Subscriptions::tick (pairing of requests with notifications), monitored-item sampling, the timer task; publishing interval arithmetic is C26",
+    "assumptions": STD_CUTS + ["update_state is never called with ReceivePublishRequest and timer-expired together (documented panic precondition; callers never do)",
+                               "subscription parameters come from revise_subscription_values (C23): max_lifetime >= 3*max_keep_alive >= 3"],
+    "tiers": tiers("c22", qbounds="update_state is loop-free; counters: all u32 values; corner harness: 7 concrete steps (unwind 8)"),
+}
+
+PROPS["C23"] = {
+    "module": "c23_revise",
+    "level": MC,
+    "technique": "Kani/CBMC symbolic execution of the revision kernels over all requested values (f64 incl. NaN/inf, u32, usize) and all valid limit configurations",
+    "kernels": ["SubscriptionService::revise_subscription_values", "MonitoredItem::sanitize_sampling_interval", "MonitoredItem::sanitize_queue_size"],
+    "explanation": "Requested publishing interval / keep-alive / lifetime / sampling interval / queue size AND the seven server limits are symbolic machine words. "
+                   "Asserted: revised interval >= minimum; 1 <= keep-alive <= maximum; lifetime >= 3*keep-alive; sampling interval == -1 or >= minimum; 1 <= queue size <= maximum. All values, no bound.",
+    "outside": "CreateSubscription/ModifySubscription/CreateMonitoredItems plumbing around the kernels",
+    "assumptions": ["configuration validity: min intervals finite and > 0; 1 <= default_keep_alive <= max_keep_alive; max_lifetime >= 3*max_keep_alive; max_monitored_item_queue_size >= 1 (0 = 'no limit (danger)' is treated as outside the valid configuration space)",
+                    "ServerState is a partially initialised value carrying only the limit fields (hook PartialServerState)"],
+    "tiers": tiers("c23", qbounds="loop-free kernels; all values"),
+}
